@@ -427,7 +427,7 @@ package vm
 //
 // Fields that are assigned only while their object is being constructed (syntactic obligation immutable-fields):
 // a "modifies *" callee cannot change them, so pointers such as interpreter.evm.tracer.callTree stay put.
-//@ immutable vm.Call.Parent, vm.Call.Index, vm.Call.From, vm.Call.To, vm.Call.Value, vm.Call.Gas, vm.EVMInterpreter.evm, vm.EVMInterpreter.tracer, vm.EVM.tracer, vm.EVM.interpreter, vm.Tracer.callTree, vm.Tracer.states, vm.ScopeContext.Memory, vm.ScopeContext.Stack, vm.ScopeContext.Contract
+//@ immutable vm.Contract.self, vm.Call.Parent, vm.Call.Index, vm.Call.From, vm.Call.To, vm.Call.Value, vm.Call.Gas, vm.EVMInterpreter.evm, vm.EVMInterpreter.tracer, vm.EVM.tracer, vm.EVM.interpreter, vm.Tracer.callTree, vm.Tracer.states, vm.ScopeContext.Memory, vm.ScopeContext.Stack, vm.ScopeContext.Contract
 
 // sync.Pool is trusted: Get hands out an object nobody else holds.
 //@ func vm.newstack() (out)
@@ -454,11 +454,14 @@ package vm
 //@ fntype vm.executionFunc(self, ctx, pc, interpreter, scope) (ret, err)
 //@   kind mutating
 //@   implementations by-signature
+//@   properties C07
 //@   requires protocol: pc != nil && interpreter != nil && interpreter.evm != nil && interpreter.evm.interpreter == interpreter && interpreter.evm.tracer != nil && interpreter.evm.tracer.callTree != nil && interpreter.evm.tracer.states != nil && interpreter.tracer == interpreter.evm.tracer && interpreter.evm.StateDB != nil && interpreter.evm.Context.BlockNumber != nil && scope != nil && scope.Stack != nil && scope.Memory != nil && scope.Contract != nil && scope.Contract.self != nil
 //@   assume package-constants: big0 != nil && !bigwide(big0) && !bigneg(big0)
-//@   ensures cursor-kept [C07 C10]: interpreter.evm.tracer.callTree.current == old(interpreter.evm.tracer.callTree.current)
-//@   ensures depth-kept [C07]: interpreter.evm.depth == old(interpreter.evm.depth)
-//@   ensures readonly-kept [C07]: interpreter.readOnly == old(interpreter.readOnly)
-//@   ensures tree-grows [C07]: interpreter.evm.tracer.callTree.count >= old(interpreter.evm.tracer.callTree.count)
+//@   ensures cursor-kept: interpreter.evm.tracer.callTree.current == old(interpreter.evm.tracer.callTree.current)
+//@   ensures depth-kept: interpreter.evm.depth == old(interpreter.evm.depth)
+//@   ensures readonly-kept: interpreter.readOnly == old(interpreter.readOnly)
+//@   ensures rules-kept: interpreter.evm.chainRules == old(interpreter.evm.chainRules)
+//@   ensures env-kept: interpreter.evm.StateDB == old(interpreter.evm.StateDB) && interpreter.evm.Context.BlockNumber == old(interpreter.evm.Context.BlockNumber)
+//@   ensures tree-grows: interpreter.evm.tracer.callTree.count >= old(interpreter.evm.tracer.callTree.count)
 //@   modifies *
 //@ end
